@@ -22,6 +22,11 @@ class ExecutorBase {
     return node.numIncompletePredecessors_.load(std::memory_order_relaxed) == 0;
   }
 
+  // Restart the count of an incomplete node; ForwardPropagator recomputes it from the incomplete
+  // predecessors it visits.
+  inline static void resetIncompletePredecessors(const dispenso::Node& node) {
+    node.numIncompletePredecessors_.store(0, std::memory_order_relaxed);
+  }
   inline static void addIncompletePredecessor(const dispenso::Node& node) {
     if (node.isCompleted()) {
       node.numIncompletePredecessors_.store(1, std::memory_order_relaxed);
